@@ -61,9 +61,9 @@ CLAIMED = {
         design='DESIGN.md §4 C06'),
     'C09': dict(
         engine='K (Kani/CBMC) + M (mirsym + z3)',
-        technique='Kani/CBMC bounded model checking of base_sampler (all 2^72 inputs vs the RCDT of the specification) and of ber_exp totality; mirsym term equality of approx_exp with the specification\'s loop (solver / point-instance fallback)',
-        text='Building blocks: base_sampler equals #{i: u < RCDT[i]} for every input; ber_exp never panics for x in [0,1024), ccs in [1/2,1] and every 7-byte string; approx_exp\'s result term equals ApproxExp of the specification for all x, ccs.',
-        note='Claimed for the building blocks and totality only. NOT decided: the distribution of the output, termination for every byte stream, sampler_z\'s loop body (not built), underflow-freedom inside approx_exp\'s polynomial evaluation.',
+        technique='Kani/CBMC bounded model checking of base_sampler (all 2^72 inputs vs the RCDT of the specification) and of ber_exp totality; mirsym: term equality of approx_exp with the specification\'s loop, ber_exp comparison logic on every path, sampler_z loop body (two trips) against Algorithm 15',
+        text='Building blocks: base_sampler equals #{i: u < RCDT[i]} for every input; ber_exp never panics for x in [0,1024), ccs in [1/2,1] and every 7-byte string; approx_exp\'s result term equals ApproxExp of the specification for all x, ccs; ber_exp returns [7 random bytes < top of z] for all x, ccs, bytes and any approx_exp value; sampler_z draws 9/1/7 bytes per trip, calls BerExp on the specified (x, ccs) and returns z + floor(mu).',
+        note='Claimed for the building blocks and totality only. NOT decided: the distribution of the output, termination for every byte stream, more than two loop trips, |mu| > 2^14, underflow-freedom inside approx_exp\'s polynomial evaluation.',
         design='DESIGN.md §4 C09, §8.2'),
     'C11': dict(
         engine='K (Kani/CBMC) + S (SymField + z3) + M (mirsym)',
